@@ -119,15 +119,20 @@ private def dedup (l : List String) : List String := uniq [] l
 
 private def prefixes (p : Path) : List Path := (List.range (p.length + 1)).map fun n => p.take n
 
-/-- `..` applied at the root of the tree, or an empty component before the end (absolute path) -/
-private def escapes (t : Tree) : Path → List String → Bool
+private def escapesGo (t : Tree) : Path → List String → Bool
   | _, [] => false
   | p, seg :: rest =>
-    if seg = "" then !rest.isEmpty || escapes t p rest
-    else if seg = "." then escapes t p rest
-    else if seg = ".." then p.isEmpty || escapes t p.dropLast rest
-    else if isDir t (p ++ [seg]) then escapes t (p ++ [seg]) rest
+    if seg = "" ∨ seg = "." then escapesGo t p rest
+    else if seg = ".." then p.isEmpty || escapesGo t p.dropLast rest
+    else if isDir t (p ++ [seg]) then escapesGo t (p ++ [seg]) rest
     else false
+
+/-- `..` applied at the root of the tree, or a LEADING empty component followed by more (`/x`: an absolute path
+    replaces the base in `Utf8Path::join`).  Empty components elsewhere (`a//b`, `a/`) are skipped by the OS. -/
+private def escapes (t : Tree) (p : Path) (segs : List String) : Bool :=
+  (match segs with
+    | "" :: _ :: _ => true
+    | _ => false) || escapesGo t p segs
 
 def invalidReason (r : Request) : Option String :=
   let paths := r.tree.map (·.path)
